@@ -66,8 +66,9 @@ func (c *vConflictRec) NotifyConflict(existing, other *Node) {
 }
 
 type vAliveRec struct {
-	veto  bool
-	calls int
+	veto     bool
+	calls    int
+	onNotify func() // lets a harness make the delegate slow
 }
 
 type vErr struct{}
@@ -76,6 +77,9 @@ func (vErr) Error() string { return "verif: veto" }
 
 func (a *vAliveRec) NotifyAlive(peer *Node) error {
 	a.calls++
+	if a.onNotify != nil {
+		a.onNotify()
+	}
 	if a.veto {
 		return vErr{}
 	}
